@@ -143,8 +143,16 @@ def run(ctx, rep):
     s = P.fn('state_sync_process')
     rec = list(s.calls('raid_rec'))
     qs = [c for c in s.calls('qsort') if 'failed' in s.expr(c.ops[0])]
-    ok = len(rec) == 1 and len(qs) == 1 and s.dominates(qs[0], rec[0]) and 'failed_compare_by_index' in s.expr(qs[0].ops[3])
-    rep.check(ok, 'R-C13-5', 'state_sync_process: qsort(failed, ..., failed_compare_by_index) dominates raid_rec', rec[0].loc() if rec else s.file, '', function='state_sync_process', construct='sort before decode')
+    ok = len(rec) == 1 and len(qs) == 1 and s.dominates(qs[0], rec[0])
+    if ok:
+        # the comparator, whatever its name, orders the entries by their disk index: it compares the `index` member of both arguments
+        co = s.strip(qs[0].ops[3])
+        cf = P.functions.get(co[1]) if co[0] == 'f' else None
+        ok = cf is not None and not cf.decl
+        if ok:
+            cmps = [i for i in cf.all_insts() if i.op == 'icmp' and cf.expr(i.ops[0]).endswith('->index') and cf.expr(i.ops[1]).endswith('->index')]
+            ok = bool(cmps) and all(cf.expr(i.ops[0]).split('->')[0] != cf.expr(i.ops[1]).split('->')[0] for i in cmps)
+    rep.check(ok, 'R-C13-5', 'state_sync_process: qsort of the failed list with a comparator on .index dominates raid_rec', rec[0].loc() if rec else s.file, '', function='state_sync_process', construct='sort before decode')
 
     # ---- R-C13-6
     for w in sorted(SIGNAL_UNLOCK):
